@@ -35,7 +35,7 @@ def generate(seed, tier):
     rec = _hist.generate_hist(
         ID, seed,
         gen_kwargs={"ntx": (2, 6), "update_only": update_only, "schema_changes": r.random() < 0.3,
-                    "p_delete": r.choice((0.2, 0.35, 0.5))},
+                    "p_delete": r.choice((0.2, 0.35, 0.5)), "p_bad_add": 0.03},
         cfg_kwargs={"want": ["k2"] if two_keys else None},
         docgen_kwargs={"k2_independent_p": k2_indep},
         update_only=update_only)
